@@ -187,6 +187,11 @@ def gen_cases(rng, tier):
                 # and just past either end (IndexError)
                 for i in rng.sample([0, -1, q["n"] - 1, q["n"], -q["n"] - 1], 2):
                     extra.append({"q": "h", "dice": [q["h"]] * q["n"], "which": [{"i": i}]})
+        if rng.random() < 0.4:
+            a = {"ref": rng.randrange(len(objs))}
+            o = objs[a["ref"]][0][0]
+            sizes = rng.choice([[4, 2], [3, 1], [4, 3, 2], [2, 4, 2]])
+            extra += [{"q": "app", "dice": [a] * n_, "o": o} for n_ in sizes]
         cases.append({"kind": "shared", "objects": objs, "queries": extra})
     return cases
 
